@@ -95,6 +95,7 @@ def tlc(
     tag: str | None = None,
     keep_stdout: bool = True,
     line_cb: Callable[[Any], None] | None = None,
+    big_stack: bool = False,
 ) -> TLCResult:
     """Run TLC on specs/<module>.tla with specs/<cfg>.
 
@@ -108,8 +109,11 @@ def tlc(
         shutil.rmtree(meta)
     meta.mkdir(parents=True)
     w = str(NCPU if workers == "auto" else workers)
-    # deep recursion over large sets (trace validation of big images) needs a large thread stack
-    java = ["java", "-XX:+UseParallelGC", f"-Xmx{heap}", "-Xss1g"]
+    java = ["java", "-XX:+UseParallelGC", f"-Xmx{heap}"]
+    if big_stack:
+        # deep recursion over large sets (trace validation of big images) needs a large thread stack; it is not the
+        # default because it slows the ordinary exhaustive runs down
+        java.append("-Xss1g")
     if dfs_queue:
         java.append("-Dtlc2.tool.queue.IStateQueue=StateDeque")
     cmd = java + [
@@ -402,7 +406,7 @@ def judge_traces(module: str, traces: list, *, batch: int = 2000, modes=("run", 
             cf.write_text(cfg_text)
             cfgname = str(cf)
         try:
-            r = tlc(module, cfgname, workers=workers, env={"TRACE_FILE": str(tf)},
+            r = tlc(module, cfgname, big_stack=(module == "TraceLocate"), workers=workers, env={"TRACE_FILE": str(tf)},
                     coverage=False, tag=f"{module}-{s}")
         finally:
             tf.unlink(missing_ok=True)
